@@ -90,8 +90,12 @@ def gen(seed, tier):
             ops.append(['sp'])
         elif x < 0.57:
             ops.append(['rb', r.randrange(3)])
-        elif x < 0.72:
+        elif x < 0.70:
             ops.append(['commit'])
+        elif x < 0.72:
+            # a commit during which the storage gets a tpc_abort for a
+            # transaction that is not the one in flight (must be ignored)
+            ops.append(['commit', 'foreign'])
         elif x < 0.78:
             ops.append(['abort'])
         elif x < 0.87:
@@ -608,7 +612,15 @@ class M:
             self.A.begin()
             self.check_reads(self.A, where, committed_only=True)
 
-    def op_commit(self):
+    def op_commit(self, how=None):
+        if how == 'foreign':
+            from ZODB.Connection import TransactionMetaData
+            st = self.st
+
+            class ForeignAbort(FailingDM):
+                def tpc_vote(self, txn):
+                    st.tpc_abort(TransactionMetaData(b'', b'foreign', {}))
+            self.A.tm.get().join(ForeignAbort('never', first=False))
         try:
             self.A.commit()
         except Exception as e:      # noqa: B902
@@ -957,7 +969,7 @@ def run(case):
             elif k == 'other':
                 m.op_other()
             elif k == 'commit':
-                m.op_commit()
+                m.op_commit(*op[1:])
             elif k == 'abort':
                 m.op_abort()
             elif k == 'fail':
